@@ -188,3 +188,15 @@ package lnwire
 //@   props C10
 //@   loop * havoc
 //@   bounds-safe
+//@
+//@ // ---- channel_update_2: the disable_flags record is written whenever ANY flag bit is set (unknown bits included),
+//@ // ---- so a decoded update re-encodes to the bytes that were signed
+//@ func (c ChanUpdateDisableFlags) IsEnabled
+//@   props C10
+//@   ensures result <==> c == 0
+//@   modifies nothing
+//@
+//@ func (c *ChannelUpdate2) AllRecords
+//@   props C10
+//@   loop * havoc
+//@   site call IsEnabled: assert arg(0) == c.DisabledFlags.Val
